@@ -27,7 +27,7 @@ def unit(mode, n, alphabet, timeout=900, solver=None):
     return Case("unit-m%d-n%d-a%d" % (mode, n, alphabet), HU, ["lexer.c", "parser.c", "utils.c", "error.c", "fifo.c", "ieee488.c"],
                 defs=["-DMODE=%d" % mode, "-DN=%d" % n, "-DALPHABET=%d" % alphabet], unwind=n + 3,
                 unwindset={"scpiParser_parseAllProgramData.0": n // 2 + 2}, timeout=timeout,
-                solver=solver, models=True,
+                solver=solver, models=True, mem_est=(12 if n >= 6 else 4),
                 functions=[fn, "scpiParser_parseAllProgramData"] + [TOKS[t] for t in sorted(TOKS)],
                 bounds=dict(function=fn, input="every string of length 0..%d over %s" % (
                     n, "all 256 byte values" if not alphabet else "a 32-symbol alphabet with one representative of every "
@@ -39,7 +39,7 @@ def cases(tier):
     if tier == "quick":
         cs += [unit(1, 5, 0), unit(1, 6, 1), unit(2, 4, 1)]
     else:
-        cs += [unit(1, 7, 0, 3000), unit(1, 9, 1, 3000), unit(2, 6, 0, 3000, "cadical"), unit(2, 7, 1, 3000, "cadical")]
+        cs += [unit(1, 7, 0, 3000), unit(1, 9, 1, 6000), unit(2, 5, 0, 6000), unit(2, 6, 1, 9000)]
     return cs
 
 
